@@ -153,7 +153,7 @@ pub fn run(progs: &str, allcuts: bool, out: &str) -> std::io::Result<()> {
             let fin_started = fin_call.map(|f| calls[j] >= f).unwrap_or(false);
             let n = data.len();
             let coarse = prog["cuts"] == "coarse";
-            let cuts: Vec<usize> = if allcuts || (fin_started && *pos == 0 && !coarse) {
+            let cuts: Vec<usize> = if (allcuts || (fin_started && *pos == 0)) && !coarse {
                 (0..n).collect()
             } else {
                 let mut c: Vec<usize> = vec![0, 1, 8, 16, 17, 24, 25, 32, 33, 40, 41, 47, 48, 49, 512, 1019, 1020, 1021, 1023];
